@@ -161,3 +161,17 @@ Qed.
 
 Lemma padlen_aligned : forall p, p mod 32 = 0 -> padlen p = 0%nat.
 Proof. intros p H. unfold padlen. rewrite H. reflexivity. Qed.
+
+(* or-ing a value shifted above the bits of a is addition *)
+Lemma lor_add_disjoint : forall a b n, 0 <= n -> 0 <= a < 2 ^ n -> Z.lor a (b * 2 ^ n) = a + b * 2 ^ n.
+Proof.
+  intros a b n Hn Ha.
+  rewrite <- Z.shiftl_mul_pow2 by lia.
+  assert (L : Z.land a (Z.shiftl b n) = 0).
+  { apply Z.bits_inj'. intros m Hm. rewrite Z.land_spec, Z.bits_0.
+    destruct (Z.lt_ge_cases m n) as [Hlt|Hge].
+    - rewrite Z.shiftl_spec_low by lia. apply andb_false_r.
+    - rewrite <- (Z.mod_small a (2 ^ n)) by lia.
+      rewrite Z.mod_pow2_bits_high by lia. reflexivity. }
+  rewrite <- Z.lxor_lor by exact L. rewrite <- Z.add_nocarry_lxor by exact L. reflexivity.
+Qed.
